@@ -23,6 +23,9 @@ pub struct FileState {
     pub locked_elsewhere: bool,
     /// this process took the lock
     pub locked: bool,
+    /// number of live handles on the open file description that holds the lock (the kernel keeps an
+    /// advisory lock until the last duplicate of the locking descriptor is closed)
+    pub lock_refs: usize,
     /// backing bytes (contract mode) or null (ghost mode)
     pub buf: *mut u8,
     pub cap: usize,
@@ -43,7 +46,7 @@ pub struct Fs {
 }
 
 const FS0: FileState =
-    FileState { len: 0, locked_elsewhere: false, locked: false, buf: core::ptr::null_mut(), cap: 0 };
+    FileState { len: 0, locked_elsewhere: false, locked: false, lock_refs: 0, buf: core::ptr::null_mut(), cap: 0 };
 
 pub static mut FS: Fs = Fs {
     files: [FS0; NFILE],
@@ -90,16 +93,34 @@ pub fn create_dir_all<P: AsRef<Path>>(_p: P) -> io::Result<()> {
 pub struct File {
     pub id: usize,
     pub pos: usize,
+    /// this handle belongs to the open file description that took the advisory lock
+    holder: core::sync::atomic::AtomicBool,
+}
+
+impl Drop for File {
+    fn drop(&mut self) {
+        if self.holder.load(core::sync::atomic::Ordering::Relaxed) {
+            let f = &mut state().files[self.id];
+            f.lock_refs -= 1;
+            if f.lock_refs == 0 {
+                f.locked = false;
+            }
+        }
+    }
 }
 
 impl File {
     /// Model-only constructor.
     pub fn verif_new(id: usize) -> Self {
-        Self { id, pos: 0 }
+        Self { id, pos: 0, holder: core::sync::atomic::AtomicBool::new(false) }
     }
     /// A second handle on the same open file description (shares the file's state, lock included).
     pub fn try_clone(&self) -> io::Result<File> {
-        Ok(Self { id: self.id, pos: self.pos })
+        let h = self.holder.load(core::sync::atomic::Ordering::Relaxed);
+        if h {
+            state().files[self.id].lock_refs += 1;
+        }
+        Ok(Self { id: self.id, pos: self.pos, holder: core::sync::atomic::AtomicBool::new(h) })
     }
     pub fn open<P: AsRef<Path>>(p: P) -> io::Result<File> {
         if state().fail_open {
@@ -145,6 +166,9 @@ impl File {
             Err(std::fs::TryLockError::WouldBlock)
         } else {
             f.locked = true;
+            if !self.holder.swap(true, core::sync::atomic::Ordering::Relaxed) {
+                f.lock_refs += 1;
+            }
             ghost::log(K::TryLock, self.id, 1, 0);
             Ok(())
         }
